@@ -1966,6 +1966,9 @@ class TopoSortMapper(CachedWalkMapper[[]]):
     def get_cache_key(self, expr: ArrayOrNames) -> int:
         return id(expr)
 
+    def get_function_definition_cache_key(self, expr: FunctionDefinition) -> int:
+        return id(expr)
+
     def post_visit(self, expr: ArrayOrNames | FunctionDefinition) -> None:
         if isinstance(expr, Array):
             self.topological_order.append(expr)
